@@ -393,17 +393,71 @@ class ClientDriver(ReorgDriver):
             c.send('blockchain.scripthash.' + m, [SH_ALL[op['s'] % len(SH_ALL)]])
         elif m == 'id_from_pos':
             h = max(0, d.height - op['back']) if 'back' in op else op['h'] % (d.height + 3)
-            c.send('blockchain.transaction.id_from_pos', [h, op.get('pos', 0), bool(op.get('merkle'))])
+            pos, merkle = op.get('pos', 0), bool(op.get('merkle'))
+            c.send('blockchain.transaction.id_from_pos', [h, pos, merkle],
+                   cb=(lambda rec: self.judge_inflight_tx_proof(rec, h, pos, None)) if merkle else None)
         elif m == 'get_merkle':
             chain = d.chain()
             h = max(0, d.height - op['back']) if 'back' in op else op['h'] % len(chain)
             txs = chain[h].txs
             t = txs[op.get('pos', 0) % len(txs)]
-            c.send('blockchain.transaction.get_merkle', [hex_hash(t.hash), h])
+            c.send('blockchain.transaction.get_merkle', [hex_hash(t.hash), h],
+                   cb=lambda rec: self.judge_inflight_tx_proof(rec, h, None, t.hash))
         elif m == 'header':
-            h = op['h'] % (d.height + 3)
             cp = op.get('cp', 0)
-            c.send('blockchain.block.header', [h, cp % (d.height + 3)] if cp else [h])
+            cpv = (cp % (d.height + 2) or d.height) if cp else 0     # mostly a valid checkpoint, sometimes tip+1
+            h = op['h'] % (cpv + 1) if cpv and op['h'] % 7 else op['h'] % (d.height + 3)
+            c.send('blockchain.block.header', [h, cpv] if cp else [h],
+                   cb=(lambda rec: self.judge_inflight_header_proof(rec, h, cpv)) if cpv else None)
+
+    # -- C11: a proof handed out while the chain is changing must verify against a block / a chain the
+    #    daemon has served at that height (a version the server may have held during the request) - never
+    #    a mixture; afterwards (quiescence sweep) only the current chain qualifies
+    def blocks_at(self, h):
+        return [b for b in self.w.tree.blocks.values() if b.height == h]
+
+    def judge_inflight_tx_proof(self, rec, h, pos, txid):
+        if 'result' not in rec or rec.get('closed'):
+            return
+        res = rec['result']
+        if pos is None:
+            pos = res.get('pos')
+            branch = res.get('merkle')
+        else:
+            branch = res.get('merkle')
+            txid = bytes.fromhex(res['tx_hash'])[::-1]
+        self.probe('c11.inflight_tx_proofs')
+        try:
+            root = merkle_fold(txid, [bytes.fromhex(x)[::-1] for x in branch], pos)
+        except (ValueError, TypeError):
+            root = None
+        for b in self.blocks_at(h):
+            if pos < len(b.txs) and b.txs[pos].hash == txid and b.header[36:68] == root:
+                return
+        self.violate('C11', 'inflight.tx_proof', f'proof for height {h} pos {pos} returned while the chain may '
+                     'have been changing folds to no merkle root of any block ever served at that height with that '
+                     'transaction at that position')
+
+    def judge_inflight_header_proof(self, rec, h, cp):
+        if 'result' not in rec or rec.get('closed'):
+            return
+        res = rec['result']
+        self.probe('c11.inflight_header_proofs')
+        try:
+            root = bytes.fromhex(res['root'])[::-1]
+            branch = [bytes.fromhex(x)[::-1] for x in res['branch']]
+            header = bytes.fromhex(res['header'])
+        except (ValueError, TypeError, KeyError):
+            self.violate('C11', 'inflight.header_proof', f'malformed header proof reply for ({h},{cp})')
+            return
+        for tipb in self.blocks_at(cp):
+            br = tipb.branch()
+            if h < len(br) and br[h].header == header and merkle_root([b.hash for b in br]) == root and \
+                    merkle_fold(br[h].hash, branch, h) == root:
+                return
+        self.violate('C11', 'inflight.header_proof', f'header proof for ({h},{cp}) returned while the chain may have '
+                     'been changing matches no chain the daemon ever served up to that checkpoint (header, root and '
+                     'branch must belong to one version)')
 
     def _when(self, op, fn):
         if op.get('at'):
